@@ -68,6 +68,7 @@ type Loop struct {
 	// per-execution
 	decr0 []*Term
 	incr0 []*Term
+	pinHeld, pinRHeld *Term
 	wc    *writeConstraint
 	entryPhi map[*ssa.Phi]Val
 	entryPhiTmp map[*ssa.Phi]Val
@@ -191,15 +192,30 @@ func (fc *FnCtx) newFrame(fn *ssa.Function, parent *Frame, path string) *Frame {
 	}
 	fr.loops = findLoops(fn)
 	key := funcKey(fn)
+	// an instance of a generic function / method of a generic type is specified through its origin
+	okey := key
+	if fn.Origin() != nil {
+		okey = stripTypeArgs(funcKey(fn.Origin()))
+	}
 	for _, l := range fr.loops {
 		fr.loopOf[l.header] = l
 		lk := fmt.Sprintf("%s#%d", key, l.ordinal)
 		l.spec = fc.eng.db.Loops[lk]
+		if l.spec == nil && okey != key {
+			lk = fmt.Sprintf("%s#%d", okey, l.ordinal)
+			l.spec = fc.eng.db.Loops[lk]
+		}
 		if l.spec != nil {
 			fc.eng.db.UsedKeys["loop:"+lk] = true
 		}
 	}
 	fr.spec = fc.eng.db.Funcs[key]
+	if fr.spec == nil && okey != key {
+		fr.spec = fc.eng.db.Funcs[okey]
+		if fr.spec == nil {
+			fr.spec = fc.eng.db.Funcs[funcKey(fn.Origin())]
+		}
+	}
 	return fr
 }
 
@@ -1529,8 +1545,8 @@ func (fr *Frame) localByName(name string, at *ssa.BasicBlock, st *State) (Val, t
 	}
 	// which object does `name` denote at this point?
 	var obj types.Object
-	if pos := fr.posOfBlock(at); pos.IsValid() && fn.Pkg != nil {
-		if sc := fn.Pkg.Pkg.Scope().Innermost(pos); sc != nil {
+	if pos := fr.posOfBlock(at); pos.IsValid() && fnTypesPkg(fn) != nil {
+		if sc := fnTypesPkg(fn).Scope().Innermost(pos); sc != nil {
 			_, obj = sc.LookupParent(name, pos)
 		}
 	}
@@ -1667,4 +1683,25 @@ func (fr *Frame) lockWait(site ssa.Instruction, st *State, what string) {
 		return
 	}
 	fc.oblige(st, "lock-wait", fr.path, And(conj...), fr.pos(site), "no lock taken by this function is held across a blocking wait ("+what+")")
+}
+
+
+// stripTypeArgs removes type-parameter / type-argument lists "[...]" from a function key:
+// (*pkg.Future[T]).close -> (*pkg.Future).close
+func stripTypeArgs(k string) string {
+	var sb strings.Builder
+	depth := 0
+	for _, c := range k {
+		switch c {
+		case '[':
+			depth++
+		case ']':
+			depth--
+		default:
+			if depth == 0 {
+				sb.WriteRune(c)
+			}
+		}
+	}
+	return sb.String()
 }
